@@ -307,9 +307,35 @@ def adv_cases(rng, n, prefix='x'):
     return out
 
 
+def ndrec_cases(rng, n):
+    """records whose fields are n-d NumpyArrays of DIFFERENT inner sizes (ak.Array of a structured / several np.ndarray),
+    sliced by a range followed by one integer array with negative entries: every field has to wrap the same index array
+    against its own size (an index array regularised in place by the first field would be wrong for the next one)"""
+    out = []
+    for i in range(n):
+        nf = rng.choice([2, 2, 3])
+        names = rng.sample(['a', 'b', 'c', 'x', 'y'], nf)
+        sizes = [rng.choice([1, 2, 3, 4, 5]) for _ in range(nf)]
+        t = ('rec', [(nm, ('list', ('leaf', rng.choice(['int64', 'float64', 'int32', 'uint8'])))) for nm in names], rng.random() < 0.2)
+        L = rng.choice([1, 2, 3, 4])
+        vals = [('$rec', [[G.leaf_value(rng, t[1][k][1][1][1], False) for _ in range(sizes[k])] for k in range(nf)]) for _ in range(L)]
+        enc = G.Enc(rng, nd=1.0, strided=0.3, list_kinds=('reg',), indexed=False)
+        lay = G.encode_plain(enc, t, vals, False)
+        m = rng.choice([1, 2, 3])
+        smin = min(sizes)
+        ix = [rng.randint(-smin, smin - 1) for _ in range(m)]
+        if rng.random() < 0.1:
+            ix[rng.randrange(m)] = smin + rng.choice([0, 1])       # out of range for the narrowest field
+        rtx, _ = _rand_range(rng, L)
+        items = [rtx, '(arr (%d) (%s))' % (m, ' '.join(map(str, ix)))]
+        out.append(C.Case('r%d' % i, 'getitem', ['(' + ' '.join(items) + ')'], [G.sx(lay)],
+                          dict(nontrivial=True, tags=dict(nitems=2, kinds='arr rng', stream='ndrec'), type=t)))
+    return out
+
+
 def cases(rng, tier):
     n = 15000 if tier == 'quick' else 400000
-    out = adv_cases(rng, n * 15 // 85)
+    out = adv_cases(rng, n * 15 // 85) + ndrec_cases(rng, n // 50)
     for i in range(n):
         a = G.gen_array(rng, depth=rng.choice([1, 2, 3, 3, 4]), canonical_too=False,
                         type_kw=dict(allow_union=rng.random() < 0.05, allow_rec=rng.random() < 0.5),
